@@ -26,6 +26,10 @@ func init() {
 		c14RingIndex(c, "C01/REORDER-RING-INDEX")
 		c14ConsecutiveCounter(c, "C01/REORDER-CONSECUTIVE-COUNTER")
 		perPacketRule(c, "C01/REORDER-PER-PACKET", []string{"pkg/rtpreceiver", "pkg/rtpreorderer", "pkg/rtplossdetector"}, 1)
+		// a packet longer than the interleaved-frame buffer is cut by the frame marshaller and the
+		// reader loses frame synchronisation: "intact" rests on the size bound of every write entry
+		// point (C18's rule, reported under C01 as well; added after the seeded change C01-r3m2)
+		sinkBoundRule(c, "C01/SINK-BOUND")
 	}
 }
 
